@@ -716,6 +716,7 @@ def _flow(chk, f, fcfg, node, expr, subs, acc, what):
 def battery():
     from sa.battery import M
     return [
+        M("global parameters memoised by name", "mpf/core/placeholder_manager.py", "    # pylint: disable-msg=too-many-return-statements\n    def get_global_parameters(self, name):", "    # pylint: disable-msg=too-many-return-statements\n    @lru_cache()\n    def get_global_parameters(self, name):", "MEMO-0"),
         M("bitwise bool ops", PM, "BOOL_OPERATORS = {ast.And: lambda a, b: a and b, ast.Or: lambda a, b: a or b}", "BOOL_OPERATORS = {ast.And: op.and_, ast.Or: op.or_}", "TABLE-7"),
         M("and/or swapped", PM, "BOOL_OPERATORS = {ast.And: lambda a, b: a and b, ast.Or: lambda a, b: a or b}", "BOOL_OPERATORS = {ast.And: lambda a, b: a or b, ast.Or: lambda a, b: a and b}", "TABLE-7"),
         M("div is floordiv", PM, "ast.Div: op.truediv,", "ast.Div: op.floordiv,", "TABLE-7"),
